@@ -102,10 +102,9 @@ class Transformer(BaseEstimator, TransformerMixin, ABC):
                 coords[data.name] = data
             else:
                 # Make sure the DataArray has some name so we can create a string mapping
-                if data.name is None:
-                    data.name = key
-                elif data.name in data.coords:
-                    # A data array that merely shares its name with one of its coordinates
+                if data.name is None or data.name in data.coords:
+                    # (also when the array merely shares its name with one of its coordinates);
+                    # rename a view: serialising must not change the stored array
                     data = data.rename(key)
                 data_vars[data.name] = data
             ds = xr.Dataset(data_vars=data_vars, coords=coords)
